@@ -42,12 +42,12 @@ def fa_cfg(maxlen, export, truthy=False):
             "INVARIANT FillIsGaplessAndFaithful\n" % (maxlen, "TRUE" if export else "FALSE", "TRUE" if truthy else "FALSE"))
 
 
-def ac_cfg(lb, prefill, depth, maxlen, multi, q, export):
+def ac_cfg(lb, prefill, depth, maxlen, multi, batch=0, q=False, export=False):
     t = lambda b: "TRUE" if b else "FALSE"
     return ("SPECIFICATION %s\nVIEW View\nCONSTRAINT Depth\nCHECK_DEADLOCK FALSE\n" % ("Spec" if export else "SpecM") +
-            "CONSTANTS LB = %d Prefill = %d MaxDepth = %d MaxLen = %d MaxMulti = %d QLookback = %s Export = %s\n"
-            % (lb, prefill, depth, maxlen, multi, t(q), t(export))
-            + ("" if export else "INVARIANT StrictlyIncreasing\nINVARIANT AddOK\nINVARIANT MultiOK\nINVARIANT NoErrorOnStored\n"))
+            "CONSTANTS LB = %d Prefill = %d MaxDepth = %d MaxLen = %d MaxMulti = %d MaxBatch = %d QLookback = %s Export = %s\n"
+            % (lb, prefill, depth, maxlen, multi, batch, t(q), t(export))
+            + ("" if export else "INVARIANT StrictlyIncreasing\nINVARIANT AddOK\nINVARIANT MultiOK\nINVARIANT BatchOK\nINVARIANT NoErrorOnStored\n"))
 
 
 # ------------------------------------------------------------------ real code drivers
@@ -139,6 +139,17 @@ class Store:
         e['post'] = self.series(tf)
         return e
 
+    def batch(self, tf, tss, v):
+        """batch_add_candle with rows (tss[j], version v + j)"""
+        rows = np.array([self.candle(tf, t, v + j) for j, t in enumerate(tss)])
+        e = dict(k='batch', chunk=[[t, v + j] for j, t in enumerate(tss)], exc='none')
+        try:
+            self.store.candles.batch_add_candle(rows, self.ex, B, tf, with_generation=False)
+        except Exception as ex:
+            e['exc'] = type(ex).__name__
+        e['post'] = self.series(tf)
+        return e
+
     def multi(self, ts, n, v):
         rows = np.array([self.candle('1m', ts + 2 * j, v) for j in range(n)])
         e = dict(k='multi', chunk=[[ts + 2 * j, v] for j in range(n)], exc='none')
@@ -150,8 +161,10 @@ class Store:
         return e
 
 
-def spacing_event(d, n_syms, bad_second, later_gap):
-    """research.backtest with leading candles d ms apart"""
+def spacing_event(d, layout, bad, later_gap=False):
+    """research.backtest on candle sets whose leading candles are d ms apart.  layout: '1' one traded symbol, '2t' two
+    traded symbols, 't+d' a traded symbol and a symbol that is only a DATA route; bad: which set is badly spaced
+    ('first' | 'second' | 'both' | 'none')"""
     from .. import session as S
     from jesse.strategies import Strategy
 
@@ -161,6 +174,7 @@ def spacing_event(d, n_syms, bad_second, later_gap):
 
         def go_long(self):
             pass
+
     def mk(dd):
         c = np.zeros((12, 6))
         for i in range(12):
@@ -169,14 +183,43 @@ def spacing_event(d, n_syms, bad_second, later_gap):
         if later_gap:
             c[6:, 0] += 120000
         return c
-    syms = [B, 'ETH-USDT'][:n_syms]
-    candles = {s: mk(60000) for s in syms}
-    candles[syms[1] if (n_syms == 2 and bad_second) else syms[0]] = mk(d)
-    out = S.run_backtest({}, S.futures_config(), candles, routes=[{'symbol': s, 'timeframe': '1m'} for s in syms],
-                         strategy_cls=Idle)
+    syms = [B] if layout == '1' else [B, 'ETH-USDT']
+    isbad = [bad in ('first', 'both'), bad in ('second', 'both')][:len(syms)]
+    candles = {s: mk(d if isbad[j] else 60000) for j, s in enumerate(syms)}
+    routes = [{'symbol': s, 'timeframe': '1m'} for s in (syms if layout != 't+d' else syms[:1])]
+    data = [{'symbol': syms[1], 'timeframe': '5m'}] if layout == 't+d' else []
+    out = S.run_backtest({}, S.futures_config(), candles, routes=routes, data_routes=data, strategy_cls=Idle)
     raised = out['exc'] is not None
-    return dict(k='spacing', d=int(d), raised=raised, exc=(out['exc'] or 'none').split(':')[0], syms=n_syms,
-                bad_second=bool(bad_second), later_gap=bool(later_gap))
+    anybad = bool(d != 60000 and any(isbad))
+    return dict(k='spacing', d=int(d), raised=raised, exc=(out['exc'] or 'none').split(':')[0], layout=layout, bad=bad,
+                later_gap=bool(later_gap), anybad=anybad, clean=bool(not anybad and not later_gap))
+
+
+def warmup_event(minutes):
+    """research.backtest whose warm-up batch holds the rows `minutes` (minute indices, in this order: repeated or
+    older rows after the first one = overlapping exchange pages); post = the 1m series the strategy reads at its first
+    step (warm-up rows + the first trading minute)"""
+    from .. import session as S
+    from jesse.strategies import Strategy
+    got = {}
+
+    class Reader(Strategy):
+        def should_long(self):
+            return False
+
+        def go_long(self):
+            pass
+
+        def before(self):
+            if self.index == 0:
+                got['rows'] = [[int((r[0] - T0) // 30000), int(r[1])] for r in self.candles]
+    W = max(minutes) + 1
+    warm = np.array([[T0 + m * 60000, 100 + j, 100 + j, 100 + j, 100 + j, 1.0] for j, m in enumerate(minutes)])
+    trade = np.array([[T0 + (W + i) * 60000, 500 + i, 500 + i, 500 + i, 500 + i, 1.0] for i in range(4)])
+    out = S.run_backtest({}, S.futures_config(), {B: trade}, routes=[{'symbol': B, 'timeframe': '1m'}], strategy_cls=Reader,
+                         warmup={B: warm})
+    chunk = [[2 * m, 100 + j] for j, m in enumerate(minutes)] + [[2 * W, 500]]
+    return dict(k='batch', chunk=chunk, exc=(out['exc'] or 'none').split(':')[0], post=got.get('rows', []), via='research.backtest')
 
 
 def sig_of(v):
@@ -269,7 +312,10 @@ def run(ctx):
     tid += 1
     traces.append({"id": tid, "hdr": {"src": "T-fill", "tf": "1m", "init": []}, "ev": ev})
     # ------------------------------------------------------------ M: add_candle
-    insts = ctx.pick([(2, 0, 6, 5, 3), (20, 22, 2, 26, 2)], [(2, 0, 7, 6, 3), (3, 0, 6, 6, 2), (20, 22, 2, 26, 3), (20, 22, 3, 26, 0)])
+    # (LB, prefill, depth, maxlen, bulk inserts up to, batches of batch_add_candle up to)
+    insts = ctx.pick([(2, 0, 6, 5, 3, 0), (20, 22, 2, 26, 2, 0), (2, 0, 3, 4, 0, 3), (20, 22, 1, 26, 0, 3)],
+                     [(2, 0, 7, 6, 3, 0), (3, 0, 6, 6, 2, 0), (20, 22, 2, 26, 3, 0), (20, 22, 3, 26, 0, 0), (2, 0, 4, 5, 1, 4),
+                      (20, 22, 2, 26, 0, 4)])
     jobs, labels = [], []
     for inst in insts:
         for q in (False, True):
@@ -281,13 +327,13 @@ def run(ctx):
     model_ce = []
     exports = []
     for (inst, q), r in zip(labels, results):
-        lab = "AddCandle LB=%d prefill=%d depth=%d maxlen=%d multi=%d %s" % (inst + ({False: "repaired", True: "as-code", "export": "export"}[q],))
+        lab = "AddCandle LB=%d prefill=%d depth=%d maxlen=%d multi=%d batch=%d %s" % (inst + ({False: "repaired", True: "as-code", "export": "export"}[q],))
         if q == "export":
             exports.append((inst, r))
             continue
         ctx.add_tlc(r, lab)
         if q is False and not r.violation:
-            for a in (("AddAny", "MultiAny") if inst[4] else ("AddAny",)):
+            for a in ("AddAny",) + (("MultiAny",) if inst[4] else ()) + (("BatchAny",) if inst[5] else ()):
                 if r.coverage.get(a, (0, 0))[1] == 0:
                     raise Machinery("vacuity: action %s never taken in %s" % (a, lab))
         if q is False and r.violation:
@@ -304,7 +350,8 @@ def run(ctx):
         lb, prefill = inst[0], inst[1]
         edges = [json.loads(e[1]) for e in tlc.tagged(r, "EDGE")]
         n_edges += len(edges)
-        cap = ctx.pick(6000, 25000)
+        ctx.log("AddCandle %r: %d transitions" % (inst, len(edges)))
+        cap = ctx.pick(2500 if inst[5] else 6000, 25000)
         if len(edges) > cap:
             edges = rng.sample(edges, cap)
         for idx, e in enumerate(edges):
@@ -316,7 +363,8 @@ def run(ctx):
                 init = st.series(tf)
                 evs = []
                 for h in hist:
-                    evs.append(st.add(tf, h["ts"], h["v"]) if h["k"] == "add" else st.multi(h["ts"], h["n"], h["v"]))
+                    evs.append(st.add(tf, h["ts"], h["v"]) if h["k"] == "add" else
+                               (st.multi(h["ts"], h["n"], h["v"]) if h["k"] == "multi" else st.batch(tf, h["tss"], h["v"])))
                 tid += 1
                 traces.append({"id": tid, "hdr": {"src": "R-add", "tf": tf, "init": init, "lb": lb}, "ev": evs})
                 if len(hist) >= 2 or prefill:
@@ -350,7 +398,15 @@ def run(ctx):
             elif x < 0.8:
                 k = rng.choice([0, 1, 2, 3, len(cur) - 2, len(cur) - 3, rng.randrange(len(cur))])
                 evs.append(st.add(tf, cur[max(0, min(k, len(cur) - 1))][0], v))
-            elif x < 0.9 or tf != "1m":
+            elif x < 0.86:
+                # batch_add_candle: a walk that may repeat / step back inside the batch (overlapping exchange pages)
+                t0 = rng.choice([last + 2, last + 2, last, last - 2 * rng.randint(1, 4)] + ([last + 4] if tf != "1m" else []))
+                tss = [max(t0, 2)]
+                for _ in range(rng.randint(1, 6)):          # 1m series stay gapless (forward steps of one minute only)
+                    tss.append(max(tss[-1] + rng.choice([2, 2, 2, 0, -2, -4]), 2))
+                evs.append(st.batch(tf, tss, v))
+                v += len(tss)
+            elif x < 0.93 or tf != "1m":
                 evs.append(st.add(tf, rng.choice([c[0] for c in cur[:-1]] or [3]) - 1, v))      # odd = unknown older
             else:
                 n = rng.randint(1, 5)
@@ -364,15 +420,36 @@ def run(ctx):
         if s == 0:
             samples.append({"kind": "T: random add sequence on %d stored rows (first 6 events)" % nrows, "tf": tf,
                             "init_tail": init[-3:], "events": [{k: (x[-3:] if k == "post" else x) for k, x in e.items()} for e in evs[:6]]})
+    # ------------------------------------------------------------ T: warm-up injection of a real research.backtest
+    n_wu = 0
+    for c in range(ctx.pick(10, 60)):
+        n = rng.randint(6, 40)
+        mins = list(range(n))
+        for _ in range(rng.randint(1, 3)):                      # overlapping pages: re-send 1-3 rows somewhere after row 0
+            at = rng.randint(1, len(mins))
+            back = rng.randint(1, min(3, at))
+            mins[at:at] = [mins[at - 1] - b for b in range(back - 1, -1, -1)] if c % 2 else [mins[at - 1]]
+        if c == 0:
+            mins = list(range(n))                               # control: a clean batch
+        tid += 1
+        traces.append({"id": tid, "hdr": {"src": "T-warmup", "tf": "1m", "init": []}, "ev": [warmup_event(mins)]})
+        n_wu += 1
+        if c:
+            ctx.nontrivial.add(("T-warmup", tuple(mins)))
+    samples.append({"kind": "T: warm-up batch with re-sent rows through research.backtest", "event": traces[-1]["ev"][0]})
     # ------------------------------------------------------------ T: research.backtest spacing validation
     ev = []
     for d in [60000, 120000, 30000, 0, 59999, 60001, 300000, -60000, 3600000, 61000]:
-        for (ns, bad2, later) in [(1, False, False), (2, False, False), (2, True, False), (1, False, True)]:
-            if d == 60000 and bad2:
-                continue
-            ev.append(spacing_event(d, ns, bad2, later))
+        combos = [('1', 'first', False), ('2t', 'first', False), ('2t', 'second', False), ('2t', 'both', False),
+                  ('t+d', 'first', False), ('t+d', 'second', False), ('t+d', 'both', False), ('1', 'first', True)]
+        if d == 60000:
+            combos = [('1', 'none', False), ('2t', 'none', False), ('t+d', 'none', False), ('1', 'none', True)]
+        elif d in (30000, 3600000, 61000):
+            combos = [('1', 'first', False), ('t+d', 'second', False), ('2t', 'second', False)]
+        for (layout, bad, later) in combos:
+            ev.append(spacing_event(d, layout, bad, later))
             if d != 60000:
-                ctx.nontrivial.add(("spacing", d, ns, bad2, later))
+                ctx.nontrivial.add(("spacing", d, layout, bad, later))
     tid += 1
     traces.append({"id": tid, "hdr": {"src": "T-spacing", "tf": "1m", "init": []}, "ev": ev})
     accepted = sum(1 for e in ev if not e["raised"])
@@ -404,7 +481,7 @@ def run(ctx):
         "traces_validated_against_impl": len(traces), "fill_patterns_from_tlc": n_pat,
         "fill_patterns_with_a_zero_price": nz, "fill_patterns_random": n_long,
         "add_model_transitions": n_edges, "add_transitions_replayed": n_r, "add_random_sequences": n_seq,
-        "spacing_cases": len(ev), "spacing_cases_accepted": accepted,
+        "warmup_batches_through_research_backtest": n_wu, "spacing_cases": len(ev), "spacing_cases_accepted": accepted,
         "trace_events_checked_by_tlc": sum(r.generated for r in results),
         "rejected_clauses": {k: len(v) for k, v in seen.items()}, "samples": samples,
         "rule": "fill: every presence pattern of every interval <= MaxLen exported by TLC (non-trivial: at least one and "
@@ -424,6 +501,10 @@ def replay(ctx, rp):
             evs.append(real_fill([tuple(g) for g in e["given"]], e["start"], e["end"], unit=2.0 ** e.get("unit_log2", 0),
                                  negzero=e.get("negzero", False), ints=e.get("ints", False)))
         init = []
+    elif src == "T-warmup":
+        e = p["ev"][-1]
+        evs.append(warmup_event([c[0] // 2 for c in e["chunk"][:-1]]))
+        init = []
     elif src.endswith("add"):
         st = Store(bucket=8)
         tf = p["hdr"]["tf"]
@@ -431,10 +512,12 @@ def replay(ctx, rp):
             st.add(tf, c[0], c[1])
         init = st.series(tf)
         for e in p["ev"]:
-            evs.append(st.add(tf, e["ts"], e["v"]) if e["k"] == "add" else st.multi(e["chunk"][0][0], len(e["chunk"]), e["chunk"][0][1]))
+            evs.append(st.add(tf, e["ts"], e["v"]) if e["k"] == "add" else
+                       (st.multi(e["chunk"][0][0], len(e["chunk"]), e["chunk"][0][1]) if e["k"] == "multi" else
+                        st.batch(tf, [c[0] for c in e["chunk"]], e["chunk"][0][1])))
     else:
         for e in p["ev"]:
-            evs.append(spacing_event(e["d"], e["syms"], e["bad_second"], e["later_gap"]))
+            evs.append(spacing_event(e["d"], e["layout"], e["bad"], e["later_gap"]))
         init = []
     tr = [{"id": 1, "hdr": dict(p["hdr"], init=init), "ev": evs}]
     verdicts, results = tlc.validate_traces("TraceCandleSeries", "TraceCandleSeries.cfg", tr, ctx.scratch, parts=1)
